@@ -109,3 +109,7 @@ impl Drop for ConnectionIdInner {
         self.ids.release(self.id);
     }
 }
+
+#[cfg(kani)]
+#[path = "/verif/harness/broker/conn_id.rs"]
+mod verif;
